@@ -60,3 +60,23 @@ def kmeta(tier):
     import kengine
     maxl = 10 if tier == 'quick' else 22
     return [kengine.KConfig('K-meta-check%d-levels%d' % (c, maxl), 'K_meta', '-DCHECK=%d -DMAXL=%d' % (c, maxl), unwind=40, modv=36, link_lib=True) for c in (1, 2, 3)]
+
+
+def ksets(tier, checks=(1, 2, 3, 4, 5)):
+    """Engine K on the sorted multi-index set algebra (tsgIndexSets.cpp): sizes are enumerated as configurations, contents are symbolic."""
+    import kengine
+    ks = []
+    def add(c, dims, na, nb, maxv, mem=6, slots=2):
+        ks.append(kengine.KConfig('K-sets-check%d-d%d-a%db%d-v%d' % (c, dims, na, nb, maxv), 'K_sets', '-DCHECK=%d -DDIMS=%d -DNA=%d -DNB=%d -DMAXV=%d' % (c, dims, na, nb, maxv),
+                                  unwind=max(na + nb, dims, 2) + 1, modv=maxv + 2, timeout=1500, mem_gb=mem, slots=slots))
+    if tier == 'quick':
+        add(1, 2, 2, 2, 2); add(2, 2, 2, 1, 2, mem=12, slots=3); add(3, 2, 3, 1, 2); add(4, 2, 2, 2, 2); add(5, 2, 3, 1, 2)
+    else:
+        for na, nb in ((0, 2), (2, 0), (1, 1), (2, 1), (1, 2), (2, 2), (3, 1), (1, 3), (3, 2), (2, 3), (3, 3)):
+            add(1, 2, na, nb, 2)
+            if na > 0: add(4, 2, na, nb, 2)
+            if na + nb <= 4: add(2, 2, na, nb, 2, mem=16, slots=4)
+        for na in (1, 2, 3, 4): add(3, 2, na, 1, 2); add(5, 2, na, 1, 2 if na < 4 else 1)
+        for c in (1, 4): add(c, 1, 4, 4, 8); add(c, 3, 2, 2, 1)
+        add(2, 1, 2, 2, 4, mem=16, slots=4); add(3, 1, 5, 1, 6); add(3, 3, 3, 1, 1); add(5, 1, 4, 1, 3)
+    return ks
